@@ -19,6 +19,8 @@ CUR = [("A(0) V(0,0) T(0,1) Y(0,0) R(0,1,0) Z", 0), ("A(0) V(0,0) R(0,1,1) Y(0,0
 CUR += [("A(0) V(0,0) R(0,1,1) R(0,2,1) Y(0,0) Y(0,0)", 0), ("A(0) V(0,0) T(0,1) R(0,1,1) R(0,2,1) R(0,3,1) Y(0,0) Y(0,0)", 0)]
 # responses to the previous survey still unread (two or more) when the next survey is issued: all of them are discarded
 CUR += [("A(0) A(1) V(0,0) Y(0,0) Y(1,0) V(0,1) R(0,2,0) Z", 0), ("A(0) A(1) V(0,0) Y(0,0) Y(1,0) Y(0,0) V(0,1) R(0,2,0) Y(1,0) R(0,3,0) Z", 0)]
+# two receives pending on one survey, one of them cancelled, then close: the other one must still be completed by the close
+CUR += [("A(0) V(0,0) R(0,1,1) R(0,2,1) X(1) Z", 0), ("A(0) V(0,0) R(0,1,1) R(0,2,1) X(2) Z", 0), ("A(0) V(0,0) R(0,1,1) R(0,2,1) R(0,3,1) X(2) Z", 0)]
 ALPHA = ["A(0)", "V(0,%d)", "R(0,%d,0)", "R(0,%d,1)", "Y(0,0)", "Y(0,2)", "Y(0,5)", "K(500)", "K(1001)", "T(0,1)", "C(0)", "X(1)"]
 
 
